@@ -107,6 +107,9 @@ class FlexiblePaxosNode(Entity):
         # Phase 1 state
         self._phase1_responses: dict[int, list[dict]] = {}
 
+        # Accepts that arrived before an earlier slot (network reordering)
+        self._held_accepts: dict[int, Event] = {}
+
         # Heartbeat
         self._heartbeat_event: Event | None = None
 
@@ -312,6 +315,11 @@ class FlexiblePaxosNode(Entity):
         self._current_ballot = ballot
         self._leader = ballot.node_id
 
+        if slot > self._log.last_index + 1:
+            # A later slot overtook an earlier one: hold it until the gap closes
+            self._held_accepts[slot] = event
+            return []
+
         if slot > self._log.last_index:
             self._log.append(ballot.number, command)
         elif self._log.get(slot) and self._log.get(slot).term != ballot.number:
@@ -323,7 +331,7 @@ class FlexiblePaxosNode(Entity):
             newly_committed = self._log.advance_commit(leader_commit)
             self._apply_committed(newly_committed)
 
-        return [
+        events = [
             self._network.send(
                 source=self,
                 destination=sender,
@@ -336,6 +344,10 @@ class FlexiblePaxosNode(Entity):
                 daemon=True,
             )
         ]
+        held = self._held_accepts.pop(slot + 1, None)
+        if held is not None:
+            events.extend(self._handle_accept(held))
+        return events
 
     def _handle_accepted(self, event: Event) -> list[Event]:
         metadata = event.context.get("metadata", {})
